@@ -350,7 +350,12 @@ class VizierServicer(vizier_service_pb2_grpc.VizierServiceServicer):
         assigned_trial.state = study_pb2.Trial.State.ACTIVE
         assigned_trial.client_id = request.client_id
         assigned_trial.start_time.CopyFrom(start_time)
-        self.datastore.update_trial(assigned_trial)
+        try:
+          self.datastore.update_trial(assigned_trial)
+        except custom_errors.NotFoundError:
+          # The trial was deleted (DeleteTrial takes no lock) after it was
+          # listed: it is no longer in the pool.
+          continue
         output_trials.append(assigned_trial)
 
       if len(output_trials) == request.suggestion_count:
